@@ -215,6 +215,16 @@ func (h *schedHandle) unlock(site string, m any, read bool) {
 	}
 }
 
+// CurName is the name of the calling goroutine if the active scheduler manages it ("" otherwise). Children
+// spawned through Go are named parent/site#n, so the part before the first "/" identifies the root thread.
+func CurName() string {
+	_, g := curManaged()
+	if g == nil {
+		return ""
+	}
+	return g.name
+}
+
 // Point is a scheduling point inserted by the rewriter (rule "points"); a no-op for unmanaged goroutines.
 func Point(site, kind string) {
 	if h := curSched(); h != nil {
